@@ -249,6 +249,8 @@ type fltOutcome struct {
 	raw      []byte
 	headLen  int
 	follow   string // "" | ok | <problem>
+	followStatus int // status of the follow-up reply (0 = none read)
+	followSent   bool
 	connErr  error  // CONNECT / MITM set-up problem
 }
 
@@ -437,7 +439,11 @@ func (e *fltEnv) exchange(x FltExch, id int64, idx int) (o fltOutcome) {
 			target = "http://" + fhost + "/f2"
 		}
 		fmt.Fprintf(conn, "GET %s HTTP/1.1\r\nHost: %s\r\nX-Vid: %s\r\n\r\n", target, fhost, fvid)
+		o.followSent = true
 		fm, err := ReadResponse(br, "GET")
+		if fm != nil {
+			o.followStatus = fm.Status
+		}
 		switch {
 		case err != nil:
 			o.follow = fmt.Sprintf("follow-up exchange failed: %v", err)
